@@ -102,11 +102,11 @@ c05_x_get_pkey(const br_x509_class *const *ctx, unsigned *usages)
 	return &c05_pkey;
 }
 /* hash class seam (implementations registered in the multihash context) */
-static size_t c05_hlen;
 static void c05_h_init(const br_hash_class **hc) { (void)hc; }
 static void c05_h_update(const br_hash_class **hc, const void *data, size_t len) { (void)hc; c05_need_r(data, len); }
-static void c05_h_out(const br_hash_class *const *hc, void *dst) { (void)hc; c05_need_w(dst, c05_hlen); }
-static br_hash_class c05_hc;
+#define C05_HOUT(n) static void c05_h_out_ ## n(const br_hash_class *const *hc, void *dst) { (void)hc; c05_need_w(dst, n); }
+C05_HOUT(16) C05_HOUT(20) C05_HOUT(28) C05_HOUT(32) C05_HOUT(48) C05_HOUT(64)
+static br_hash_class c05_hcs[6];      /* MD5, SHA-1, SHA-224, SHA-256, SHA-384, SHA-512: documented output lengths */
 static const br_x509_class c05_x_vtable = { sizeof(br_x509_minimal_context), c05_x_start_chain, c05_x_start_cert,
 	c05_x_append, c05_x_end_cert, c05_x_end_chain, c05_x_get_pkey };
 static const br_x509_class *c05_x_obj = &c05_x_vtable;
@@ -116,7 +116,7 @@ static void
 c05_pkey_setup(void)
 {
 	ND_BYTES(c05_k1, sizeof c05_k1); ND_BYTES(c05_k2, sizeof c05_k2);
-	c05_pkey.key_type = ND_U8();
+	c05_pkey.key_type = (ND_U8() & 1) ? BR_KEYTYPE_RSA : BR_KEYTYPE_EC;     /* what a validator returns */
 	if (c05_force_kt) {
 		c05_pkey.key_type = (unsigned char)c05_force_kt;
 	}
@@ -192,7 +192,6 @@ c05_engine_env(br_ssl_engine_context *e)
 		e->hbuf_out = c05_out + off_; e->hlen_out = n_;
 	}
 	e->saved_hbuf_out = e->hbuf_out;
-	ASSUME(e->iomode != BR_IO_FAILED || e->err != 0);       /* engine invariant (C06) */
 	c05_pkey_setup();
 	e->x509ctx = &c05_x_obj;
 	/* chain cursor: `chain` points into c05_chain with chain_len entries left; current certificate region */
@@ -216,19 +215,61 @@ c05_engine_env(br_ssl_engine_context *e)
 	if (ND_U8() & 1) { e->iec = &c05_ec; } else { e->iec = 0; }
 	if (ND_U8() & 1) { e->irsavrfy = c05_irsavrfy; } else { e->irsavrfy = 0; }
 	if (ND_U8() & 1) { e->iecdsa = c05_iecdsa; } else { e->iecdsa = 0; }
-	/* hash implementations: each of the six slots empty or a stub class with <= 64 output bytes
-	   (one common output length: the natives only rely on "<= 64") */
-	c05_hlen = ND_SIZE();
-	ASSUME(c05_hlen >= 1 && c05_hlen <= 64);
-	c05_hc.context_size = sizeof(br_sha512_context);
-	c05_hc.desc = (uint32_t)c05_hlen << BR_HASHDESC_OUT_OFF;
-	c05_hc.init = c05_h_init; c05_hc.update = c05_h_update; c05_hc.out = c05_h_out;
-	{ size_t i; for (i = 0; i < 6; i ++) { if (ND_U8() & 1) { e->mhash.impl[i] = &c05_hc; } else { e->mhash.impl[i] = 0; } } }
+	/* hash implementations: each of the six slots empty or a stub class with the documented output length */
+	{
+		static const unsigned char olen[6] = { 16, 20, 28, 32, 48, 64 };
+		size_t i;
+		for (i = 0; i < 6; i ++) {
+			c05_hcs[i].context_size = sizeof(br_sha512_context);
+			c05_hcs[i].desc = (uint32_t)olen[i] << BR_HASHDESC_OUT_OFF;
+			c05_hcs[i].init = c05_h_init; c05_hcs[i].update = c05_h_update;
+			if (ND_U8() & 1) { e->mhash.impl[i] = &c05_hcs[i]; } else { e->mhash.impl[i] = 0; }
+		}
+		c05_hcs[0].out = c05_h_out_16; c05_hcs[1].out = c05_h_out_20; c05_hcs[2].out = c05_h_out_28;
+		c05_hcs[3].out = c05_h_out_32; c05_hcs[4].out = c05_h_out_48; c05_hcs[5].out = c05_h_out_64;
+	}
 	/* invariants of the engine fields the natives index with */
 	ASSUME(e->ecdhe_point_len <= sizeof e->ecdhe_point);
 	ASSUME(e->ecdhe_curve <= 31);                /* set by the T0 code from the supported-curves mask (32 bits) */
 	ASSUME(e->session.session_id_len <= sizeof e->session.session_id);
-	e->server_name[sizeof e->server_name - 1] = 0;           /* NUL-terminated (br_ssl_engine_set_server_name / the T0 code) */
+	e->server_name[15] = 0;           /* NUL-terminated (br_ssl_engine_set_server_name / the T0 code); harness bound: at most 15 characters */
+}
+
+/* stated call-site preconditions common to both handshake programs */
+static void
+c05_hs_common_pre(T0N_CTXT *c)
+{
+	br_ssl_engine_context *e = &c->eng;
+	(void)e;
+	/* lengths of data assembled in the pad by the T0 code are bounded by its size (length checks in
+	   ssl_hs_client.t0 / ssl_hs_server.t0 before the bytes are read) */
+#ifdef C05_OP_x509_append
+	if (OP == C05_OP_x509_append) { ASSUME(C05_TOP(0) <= sizeof e->pad); }
+#endif
+#ifdef C05_OP_anchor_dn_append_name
+	if (OP == C05_OP_anchor_dn_append_name) { ASSUME(C05_TOP(0) <= sizeof e->pad); }
+#endif
+#ifdef C05_OP_verify_SKE_sig
+	if (OP == C05_OP_verify_SKE_sig) { ASSUME(C05_TOP(0) <= sizeof e->pad); }
+#endif
+#ifdef C05_OP_verify_CV_sig
+	if (OP == C05_OP_verify_CV_sig) { ASSUME(C05_TOP(0) <= sizeof e->pad); }
+#endif
+#ifdef C05_OP_do_rsa_decrypt
+	if (OP == C05_OP_do_rsa_decrypt) { ASSUME(C05_TOP(1) >= 48 && C05_TOP(1) <= sizeof e->pad); }   /* ( len prf_id ): RSA-decrypted value has the modulus length */
+#endif
+#ifdef C05_OP_do_ecdhe_part2
+	if (OP == C05_OP_do_ecdhe_part2) { ASSUME(C05_TOP(1) <= sizeof e->pad); }
+#endif
+#if defined(C05_KEY_hss) && defined(C05_OP_do_ecdh)
+	if (OP == C05_OP_do_ecdh) { ASSUME(C05_TOP(1) <= sizeof e->pad); }
+#endif
+	/* compute-Finished-inner ( from_client prf_id ): the PRF hash is SHA-256 or SHA-384 */
+	if (OP == C05_OP_compute_Finished_inner) { ASSUME(C05_TOP(0) == br_sha256_ID || C05_TOP(0) == br_sha384_ID); }
+	/* copy-protocol-name ( idx ): index of a configured ALPN name */
+	if (OP == C05_OP_copy_protocol_name) { ASSUME(C05_TOP(0) < e->protocol_names_num); }
+	/* value stored into ecdhe_point_len: the point length, checked against the buffer size by the T0 code */
+	if (OP == C05_OP_set8 && C05_TOP(0) == offsetof(br_ssl_engine_context, ecdhe_point_len)) { ASSUME(C05_TOP(1) <= sizeof e->ecdhe_point); }
 }
 
 /* ================================================================== client */
@@ -291,6 +332,7 @@ c05_env(T0N_CTXT *c)
 	if (OP == C05_OP_do_ecdh && C05_TOP(1) == 0) c05_force_kt = BR_KEYTYPE_EC;                /* static ECDH */
 	if (OP == C05_OP_verify_SKE_sig) c05_force_kt = C05_TOP(1) ? BR_KEYTYPE_RSA : BR_KEYTYPE_EC;   /* use_rsa operand */
 	c05_engine_env(&c->eng);
+	c05_hs_common_pre(c);
 	if (ND_U8() & 1) { c->client_auth_vtable = &c05_ca_obj; } else { c->client_auth_vtable = 0; }
 	c->irsapub = c05_irsapub;
 	/* stated call-site preconditions (established by the T0 code before these words run) */
@@ -357,7 +399,7 @@ static void
 c05_cache_save(const br_ssl_session_cache_class **p, br_ssl_server_context *sc, const br_ssl_session_parameters *params)
 {
 	(void)p; (void)sc;
-	c05_need_r(params, sizeof *params);
+	CHECK(params == &sc->eng.session, "the cache is handed the session parameters of the engine");
 }
 static int
 c05_cache_load(const br_ssl_session_cache_class **p, br_ssl_server_context *sc, br_ssl_session_parameters *params)
@@ -376,6 +418,7 @@ c05_env(T0N_CTXT *c)
 	size_t a = ND_SIZE(), b = ND_SIZE(), o = ND_SIZE(), l = ND_SIZE();
 	if (OP == C05_OP_do_static_ecdh) c05_force_kt = BR_KEYTYPE_EC;
 	c05_engine_env(&c->eng);
+	c05_hs_common_pre(c);
 	c->policy_vtable = &c05_pol_obj;
 	if (ND_U8() & 1) { c->cache_vtable = &c05_cache_obj; } else { c->cache_vtable = 0; }
 	/* trust anchor names for the CertificateRequest: at most two, at most 8 bytes */
@@ -420,7 +463,6 @@ c05_post(T0N_CTXT *c, unsigned op)
 	CHECK(C05_IN_REGION_OK(e->hbuf_in, e->hlen_in), "handshake input cursor stays inside the region given by the engine");
 	CHECK(e->hbuf_out >= c05_out && e->hbuf_out <= c05_out + C05_OB && e->hlen_out <= (size_t)(c05_out + C05_OB - e->hbuf_out),
 		"handshake output cursor stays inside the region given by the engine");
-	CHECK(e->iomode != BR_IO_FAILED || e->err != 0, "engine failed implies an error code");
 	CHECK(e->ecdhe_point_len <= sizeof e->ecdhe_point, "invariant: ecdhe_point_len within ecdhe_point");
 }
 
